@@ -17,8 +17,8 @@ model returns the interpretation of the same items), the C06 lemmas at the value
 `reread_eq_normal`), and the agreement of encoder and decoder on timestamps (`ts_marshal`) and field descriptions
 (`desc_sync`). Lemmas: FitProps/EndToEnd*Lemmas.lean.
 
-PROPERTY THEOREMS: C01_e2e_actual, C01_e2e_roundtrip_partial, C01_e2e_full_fails_arr, C01_e2e_full_fails_zero,
-C01_e2e_full_fails_fffd, C01_e2e_value_independent_of_byte_order
+PROPERTY THEOREMS: C01_e2e_actual, C01_e2e_roundtrip_partial, C01_e2e_reencode_partial, C01_e2e_full_fails_arr,
+C01_e2e_full_fails_zero, C01_e2e_full_fails_fffd, C01_e2e_reencode_full_fails_boolarr, C01_e2e_value_independent_of_byte_order
 
 Findings of the pinned tree (open, see known_findings.jsonl): KF-C01-arr (F03), KF-C01-zero (F04), KF-C01-fffd (F02): the
 full statement `C01_e2e_roundtrip_full` is false on them (`C01_e2e_full_fails_*`); `C01_e2e_roundtrip_partial` excludes
@@ -114,6 +114,68 @@ theorem C01_e2e_roundtrip_partial (c : Cfg) (o : Fit.DecApi.Opts) (files : List 
   rw [filesOf_snd c files kepts hlen] at this
   exact this
 
+theorem seqMatches_literal (fac : Fit.DecApi.Factory) (arch : Nat) : ∀ (kept : List Message) (vst : Fit.Validator.State)
+    (ns : List NMsg), seqNormal fac arch vst kept = true → seqMatches normalValue false fac arch vst kept ns = true →
+    seqMatches idValue false fac arch vst kept ns = true := by
+  intro kept
+  induction kept with
+  | nil => intro vst ns _ h; cases ns <;> simp_all [seqMatches]
+  | cons m ms ih =>
+    intro vst ns hn h
+    cases ns with
+    | nil => simp [seqMatches] at h
+    | cons n ns =>
+      simp only [seqNormal, Bool.and_eq_true, beq_iff_eq] at hn
+      simp only [seqMatches, Bool.and_eq_true] at h ⊢
+      rw [← hn.1]
+      exact ⟨h.1, ih _ ns hn.2 h.2⟩
+
+/-- **RE-ENCODING (partial: for messages whose values are in wire-normal form, outside the three finding classes).**
+The last sentence of the property. Messages a decoder returned carry values in wire-normal form for its factory
+(`seqNormal`) and validation only filters them (`C10_validate_filter`). Whenever the encoder accepts such messages,
+encoding what it retained and decoding again returns those very messages — numbers, base types, values AS THEY ARE
+(`idValue`: not merely equivalent ones), order, developer fields — each with its timestamp where it was or (rule (e),
+when the encoder compresses it into the record header) in front. -/
+theorem C01_e2e_reencode_partial (c : Cfg) (o : Fit.DecApi.Opts) (files : List FileIn) (kepts : List (List Message))
+    (bytes : List Nat) (henc : encodeChain c files 0 = (kepts, bytes, none)) (hne : files ≠ [])
+    (hc : CfgOK c files) (ho : PlainOpts o) (hdom : ∀ kept ∈ kepts, inDomain o.fac kept = true)
+    (hsmall : bytes.length < 4294967296) (hkf : ∀ kept ∈ kepts, noKF o.fac kept = true)
+    (hnorm : ∀ kept ∈ kepts, seqNormal o.fac c.w.arch {} kept = true) :
+    ∃ seqs, decodeValues o bytes = (seqs, none) ∧
+      AllMatch (fun kept ns => seqMatches idValue false o.fac c.w.arch {} kept ns = true) kepts seqs := by
+  obtain ⟨seqs, h1, h2⟩ := C01_e2e_roundtrip_partial c o files kepts bytes henc hne hc ho hdom hsmall hkf
+  refine ⟨seqs, h1, ?_⟩
+  clear h1 henc hdom hkf
+  induction h2 with
+  | nil => exact AllMatch.nil
+  | @cons a b as bs hab _ ih =>
+    exact AllMatch.cons (seqMatches_literal o.fac c.w.arch a {} b (hnorm a (by simp)) hab)
+      (ih (fun k hk => hnorm k (List.mem_cons_of_mem _ hk)))
+
+/-- the decoded sequences handed back to the encoder: one file per sequence, under the header the decoder returned -/
+def backFiles (fits : List Fit.DecApi.Fit) : List FileIn :=
+  fits.map fun f => { hsize := f.hdr.size, hpv := f.hdr.protoVer, hprofile := f.hdr.profileVer, msgs := f.msgs.map ofDecoded }
+
+/-- the last sentence of the property at full strength: for the messages the decoder returned for ANY input bytes -/
+def C01_e2e_reencode_full : Prop :=
+  ∀ (c : Cfg) (o : Fit.DecApi.Opts) (input : List Nat) (fits : List Fit.DecApi.Fit) (kepts : List (List Message)) (bytes : List Nat),
+    decodeChain o input = (fits, none) → fits ≠ [] → encodeChain c (backFiles fits) 0 = (kepts, bytes, none) →
+    CfgOK c (backFiles fits) → PlainOpts o → (∀ kept ∈ kepts, inDomain o.fac kept = true) → bytes.length < 4294967296 →
+    ∃ seqs, decodeValues o bytes = (seqs, none) ∧
+      AllMatch (fun kept ns => seqMatches idValue false o.fac c.w.arch {} kept ns = true) kepts seqs
+
+/-- what separates `C01_e2e_reencode_partial` from it: that what validation retains of the messages `Fit.DecApi` returns
+(for ANY input bytes, not only encoder output) carries values in wire-normal form and lies outside the finding classes.
+For encoder output it follows from `C01_e2e_actual` value by value (the example below evaluates an instance); for arbitrary
+input it needs an invariant of `decodeField` over all byte strings (a decoded value is aligned with the base type it is
+returned under, its array-ness is what the size implies) that the decoder-API lemma layer (C03: safety only) does not
+provide yet. One class is known to refute it, and with it the full statement (`C01_e2e_reencode_full_fails_boolarr`,
+finding KF-C01-boolarr): a profile-bool ARRAY field holding bytes other than 0 / 1 / 255. -/
+def C01_e2e_dec_output_normal : Prop :=
+  ∀ (c : Cfg) (o : Fit.DecApi.Opts) (input : List Nat) (fits : List Fit.DecApi.Fit) (kepts : List (List Message)) (bytes : List Nat),
+    decodeChain o input = (fits, none) → encodeChain c (backFiles fits) 0 = (kepts, bytes, none) → PlainOpts o →
+    ∀ kept ∈ kepts, seqNormal o.fac c.w.arch {} kept = true ∧ noKF o.fac kept = true
+
 /-- the full-strength statement: the round trip to the normal form for EVERY accepted input of the domain -/
 def C01_e2e_roundtrip_full : Prop :=
   ∀ (c : Cfg) (o : Fit.DecApi.Opts) (files : List FileIn) (kepts : List (List Message)) (bytes : List Nat),
@@ -187,6 +249,33 @@ theorem C01_e2e_full_fails_fffd : ¬ C01_e2e_roundtrip_full :=
     (by decide +kernel) (by decide) (by decide) (by decide +kernel) (by decide +kernel)
     (by decide +kernel) (by decide +kernel)
 
+/-- **KF-C01-boolarr.** A factory with a profile-bool array field (the standard profile has none): the bytes 1C 01 decode
+as `[]typedef.Bool{0x1C, 1}` — array elements are returned as they are, a single `Bool` above 1 would be clamped to
+invalid — and `MarshalAppend` writes 255 for the 0x1C: the encoder accepts the decoded message, and encoding / decoding it
+again returns `{255, 1}`. The last sentence of the property is false at full strength. -/
+theorem C01_e2e_reencode_full_fails_boolarr : ¬ C01_e2e_reencode_full := by
+  intro h
+  let fac : Fit.DecApi.Factory := [⟨20, 12, ⟨true, 0x00, true, true, false, []⟩⟩]
+  let o : Fit.DecApi.Opts := { chk := true, exp := false, fac := fac }
+  let first : List FileIn := [{ msgs := [⟨20, [⟨some { num := 12, baseType := 0x00, nameKnown := true, profileBool := true, array := true },
+    .sliceUint8 [0x1C, 1], false⟩], []⟩] }]
+  let input := (encodeChain (kfCfg false) first 0).2.1
+  let fits := (decodeChain o input).1
+  let back := encodeChain (kfCfg false) (backFiles fits) 0
+  have hdec : decodeChain o input = (fits, none) := by decide +kernel
+  have henc : encodeChain (kfCfg false) (backFiles fits) 0 = (back.1, back.2.1, none) := by decide +kernel
+  obtain ⟨seqs, h1, h2⟩ := h (kfCfg false) o input fits back.1 back.2.1 hdec (by decide +kernel) henc
+    (kfCfg_ok false _ (by decide +kernel)) ⟨rfl, rfl, rfl, rfl⟩ (by decide +kernel) (by decide +kernel)
+  have hv : decodeValues o back.2.1 = ([[⟨20, [⟨12, 0, .sliceBool [255, 1]⟩], []⟩]], none) := by decide +kernel
+  rw [hv] at h1
+  simp only [Prod.mk.injEq, and_true] at h1
+  subst h1
+  have hk : back.1 = [[⟨20, [⟨some { num := 12, baseType := 0x00, nameKnown := true, profileBool := true, array := true },
+      .sliceBool [0x1C, 1], false⟩], []⟩]] := by decide +kernel
+  rw [hk] at h2
+  cases h2 with
+  | cons hab _ => revert hab; decide +kernel
+
 /-- the witnesses lie in the classes the partial theorem excludes, one each -/
 example : kfArr kfFac [⟨20, [hrField (.sliceUint8 [70, 71])], []⟩] = true ∧
     kfZero kfFac [⟨20, [hrField (.uint8 70)], []⟩, ⟨20, [hrField (.sliceUint8 [])], []⟩] = true ∧
@@ -230,6 +319,24 @@ example : (decodeValues exO (encodeChain exCfg exFiles 0).2.1) =
        ⟨20, [⟨253, 0x86, .uint32 1000000000⟩, ⟨3, 2, .uint8 70⟩], [⟨1, 0, .uint16 500⟩]⟩,
        ⟨20, [⟨253, 0x86, .uint32 1000000005⟩, ⟨200, 0x84, .sliceUint16 [1, 2]⟩], [⟨1, 0, .uint16 7⟩]⟩],
       [⟨65280, [⟨1, 7, .sliceString [[0x61], [0x62]]⟩, ⟨2, 0x89, .float64 0x3FF8000000000000⟩], []⟩]], none) := by
+  decide +kernel
+
+/-- re-encoding, evaluated: the messages the example decodes to (turned back into encoder input: same numbers, base types,
+flags, values) are accepted unchanged, are in wire-normal form, and encode / decode to themselves -/
+def exBack : List FileIn :=
+  [{ hsize := 12, msgs :=
+      [⟨0, [kf 8 0x07 (.string [0x66, 0x69, 0x74])], []⟩,
+       ⟨207, [kf 3 0x02 (.uint8 0)], []⟩,
+       ⟨206, [kf 0 0x02 (.uint8 0), kf 1 0x02 (.uint8 1), kf 2 0x02 (.uint8 0x84), kf 3 0x07 (.sliceString [[0x64]]) true], []⟩,
+       ⟨206, [kf 0 0x02 (.uint8 0), kf 1 0x02 (.uint8 1), kf 2 0x02 (.uint8 0x02), kf 3 0x07 (.sliceString [[0x65]]) true], []⟩,
+       ⟨20, [kf 253 0x86 (.uint32 1000000000), kf 3 0x02 (.uint8 70)], [⟨0, 1, .uint16 500⟩]⟩,
+       ⟨20, [kf 253 0x86 (.uint32 1000000005), uf 200 0x84 (.sliceUint16 [1, 2])], [⟨0, 1, .uint16 7⟩]⟩] },
+   { msgs := [⟨65280, [uf 1 0x07 (.sliceString [[0x61], [0x62]]), uf 2 0x89 (.float64 0x3FF8000000000000)], []⟩] }]
+
+example : (encodeChain exCfg exBack 0).1 = exBack.map (·.msgs) ∧ (encodeChain exCfg exBack 0).2.2 = none ∧
+    (∀ kept ∈ (encodeChain exCfg exBack 0).1, seqNormal exFac 1 {} kept = true ∧ inDomain exFac kept = true ∧ noKF exFac kept = true) ∧
+    decodeValues exO (encodeChain exCfg exBack 0).2.1 = ((exBack.map (·.msgs)).map (·.map literal), none) ∧
+    decodeValues exO (encodeChain exCfg exBack 0).2.1 = decodeValues exO (encodeChain exCfg exFiles 0).2.1 := by
   decide +kernel
 
 /-! ### the value layer, stated on its own -/
